@@ -4,22 +4,22 @@ CONSTANTS
   Biases = {3, 4}
   Hidden = {7, 8}
   OutSet = {5, 6}
-  Shapes = {{1, 3, 5, 7}, {1, 3, 4, 5}}
+  Shapes = {{1, 5}}
   Weights <- W1
   TdFlags = {FALSE}
-  InVals <- V2
-  OrderKinds = {"BIOH"}
-  ActSchemes <- SchemesQuick
-  LinkCaps = {3}
+  InVals <- V1
+  OrderKinds = {"IBOH"}
+  ActSchemes <- SchemesLinear
+  LinkCaps = {2}
   SealAtCap = FALSE
   Canonical = TRUE
-  FwdKs = {1, 2}
-  RelaxKs = {2}
-  UseRec = TRUE
+  FwdKs = {1}
+  RelaxKs = {}
+  UseRec = FALSE
   UseAct = FALSE
   MaxHist = 2
   MaxSuf = 2
   Limit = 1000
-  FlushWorks = TRUE
-INVARIANTS FlushRestores SuffixEqual
+  FlushWorks = FALSE
+INVARIANTS SuffixEqual
 CHECK_DEADLOCK FALSE
